@@ -40,3 +40,32 @@ Section Writer.
   Definition write_to (w : W) (chunks : list bytes) : nat * option nat :=
     let s := run w chunks in (fw_size s, fw_err s).
 End Writer.
+
+(* WriteTo's control flow reads fw.size: the blank line between two sections is printed only when
+   something has been accepted already (if len(m.X) > 0 && fw.size > 0 { fw.Fprint(newline) }).
+   An item is therefore either an unconditional chunk or one guarded by fw.size > 0. *)
+Inductive item := Always (p : bytes) | IfNonEmpty (p : bytes).
+
+Section WriterItems.
+  Variable W : Type.
+  Variable write : W -> bytes -> W * nat * bool.
+  Definition fw_item (s : fw W) (i : item) : fw W :=
+    match i with
+    | Always p => fw_print W write s p
+    | IfNonEmpty p => if Nat.ltb 0 (fw_size W s) then fw_print W write s p else s
+    end.
+  Definition run_items (w : W) (items : list item) : fw W := fold_left fw_item items (fw_init W w).
+End WriterItems.
+
+(* the text the same items produce on a writer that accepts everything (String()) *)
+Fixpoint text_of (printed : bytes) (items : list item) : bytes :=
+  match items with
+  | [] => printed
+  | Always p :: r => text_of (printed ++ p) r
+  | IfNonEmpty p :: r => if Nat.ltb 0 (length printed) then text_of (printed ++ p) r else text_of printed r
+  end.
+
+(* the writers used by the correspondence leg: accept at most k bytes in total, then fail *)
+Definition fail_after (k : nat) (w : nat) (p : bytes) : nat * nat * bool :=
+  if Nat.leb (w + length p) k then (w + length p, length p, false)
+  else (k, k - w, true).
